@@ -2,7 +2,7 @@
 or of the lemma itself at a strictly smaller non-negative measure = induction hypothesis)."""
 import z3
 
-from .contracts import NS, labelled
+from .contracts import NS, LemmaInstance, labelled
 from .engine import Obligation
 from .values import And, Implies, SBool, to_bool, to_int
 
@@ -49,3 +49,23 @@ def lemma_obligations(reg, lem):
     g.props = lem.props
     obs.append(g)
     return obs
+
+
+def instance(reg, name, **bindings):
+    """the proved lemma `name` at the given arguments: requires => ensures"""
+    lem = reg.lemmas[name]
+    reg.used_lemmas.add(name)
+    b = NS(bindings)
+    req = And(*[x for _, x in labelled(lem.requires(b) if lem.requires else None)])
+    ens = And(*[x for _, x in labelled(lem.ensures(b))])
+    return LemmaInstance(Implies(req, ens), [name])
+
+
+def instance_forall(reg, name, sorts, bind, guard=None, patterns=None):
+    """forall q. [guard(q) =>] lemma(bind(q)): the lemma at every value of the bound variables"""
+    from .values import forall
+
+    def body(*qs):
+        inst = instance(reg, name, **bind(*qs)).clause
+        return Implies(guard(*qs), inst) if guard is not None else inst
+    return LemmaInstance(forall(sorts, body, patterns=patterns), [name])
